@@ -291,11 +291,22 @@ class _FPCore2FPy:
                 exprs = [self._visit(e, ctx) for e in e.children]
                 return Compare(ops, exprs, None)
             case fpc.NEQ():
-                # TODO: need to check if semantics are the same
                 assert len(e.children) >= 2, "not enough children"
-                ops = [CompareOp.NE for _ in e.children[1:]]
                 exprs = [self._visit(e, ctx) for e in e.children]
-                return Compare(ops, exprs, None)
+                if len(exprs) == 2:
+                    return Compare([CompareOp.NE], exprs, None)
+                # n-ary `!=` holds when the operands are pairwise distinct,
+                # which the chain `a != b != c` does not say: bind each
+                # operand once and compare every pair
+                names: list[NamedId] = []
+                for expr in exprs:
+                    t = self.gensym.fresh('t')
+                    ctx.stmts.append(Assign(t, None, expr, None))
+                    names.append(t)
+                return And([
+                    Compare([CompareOp.NE], [Var(a, None), Var(b, None)], None)
+                    for i, a in enumerate(names) for b in names[i + 1:]
+                ], None)
             case fpc.Size():
                 # BUG: titanfp package says `fpc.Size` is n-ary
                 if len(e.children) != 2:
